@@ -70,7 +70,11 @@ FIELD_DESC = {
     "c": ((2, 2), np.float32),
     "d": ((), object),
 }
-XFS = ["ident", "dropOcc", "keepOcc", "rev", "dupFirst", "dropAll"]
+XFS = ["ident", "dropOcc", "keepOcc", "rev", "dupFirst", "dropAll", "revIn", "scribble"]
+# transforms written in another style but with the semantics of a modelled one: `revIn` reverses the index array it
+# was handed IN PLACE and returns that same object, `scribble` uses the `occupied` / `cur_data` arrays it was handed as
+# scratch space and returns its inputs (both are legal: the arrays belong to the call)
+XF_MODEL = {"revIn": "rev", "scribble": "ident"}
 
 
 class Tok:
@@ -165,7 +169,30 @@ def xf_drop_all(indices, new_data, add_info, extra_args, occupied, cur_data):
     return np.array([], dtype=np.int32), {}, add_info
 
 
-XF = {"ident": xf_ident, "dropOcc": xf_drop_occ, "keepOcc": xf_keep_occ, "rev": xf_rev,
+def with_oform(fn, form):
+    """the same transform, returning its indices as a list / tuple / int64 array ("indices (array-like)")"""
+    def wrapped(indices, new_data, add_info, extra_args, occupied, cur_data):
+        i2, d2, a2 = fn(indices, new_data, add_info, extra_args, occupied, cur_data)
+        i2 = {"list": lambda: [int(i) for i in i2], "tuple": lambda: tuple(int(i) for i in i2),
+              "nd64": lambda: np.asarray(i2, dtype=np.int64)}[form]()
+        return i2, d2, a2
+    return wrapped
+
+
+def xf_rev_inplace(indices, new_data, add_info, extra_args, occupied, cur_data):
+    indices[...] = indices[::-1].copy()
+    return indices, {k: v[::-1] for k, v in new_data.items()}, add_info
+
+
+def xf_scribble(indices, new_data, add_info, extra_args, occupied, cur_data):
+    occupied[...] = ~occupied
+    for v in cur_data.values():
+        if isinstance(v, np.ndarray) and v.dtype != object and v.size:
+            v[...] = v[::-1].copy()
+    return indices, new_data, add_info
+
+
+XF = {"revIn": xf_rev_inplace, "scribble": xf_scribble, "ident": xf_ident, "dropOcc": xf_drop_occ, "keepOcc": xf_keep_occ, "rev": xf_rev,
       "dupFirst": xf_dup_first, "dropAll": xf_drop_all}
 
 
@@ -214,6 +241,9 @@ def gen_case(rng):
             if not xfs:
                 # the index list in another array-like form (the harness' transforms index it as an ndarray)
                 ops[-1]["iform"] = rng.choice(["nd32", "nd64", "list", "tuple"])
+            elif rng.random() < 0.35:
+                # the LAST transform hands its indices back in another documented array-like form
+                ops[-1]["oform"] = rng.choice(["list", "tuple", "nd64"])
         elif r < 0.50:
             # out-of-range index among valid ones
             hi = max(cur_cap, 1)
@@ -272,6 +302,23 @@ def impl_state(store, fields):
         if t is None:
             bad = f"row at index {int(i)} does not decode to one token"
         rows.append((int(i), t))
+    # every other form of data() presents the same rows in the same order as the dict of all fields: a single field
+    # name (the form cqd_score and ProximityArchive use), a list of names, the tuple form
+    def same(x, y):
+        x, y = np.asarray(x), np.asarray(y)
+        if x.shape != y.shape or x.dtype != y.dtype:
+            return False
+        return x.tobytes() == y.tobytes() if x.dtype != object else all(a is b or a == b for a, b in zip(x.ravel(), y.ravel()))
+    for name in list(fields) + ["index"]:
+        one = store.data(name)
+        if not same(one, data[name]):
+            bad = bad or (f"data({name!r}) = {np.asarray(one).tolist()!r:.120} but data()[{name!r}] = "
+                          f"{np.asarray(data[name]).tolist()!r:.120} (same rows, same order expected)")
+    sel = [fields[-1], "index"]
+    tup = store.data(sel, "tuple")
+    dic = store.data(sel)
+    if len(tup) != 2 or any(not same(t, data[n]) for t, n in zip(tup, sel)) or any(not same(dic[n], data[n]) for n in sel):
+        bad = bad or f"data({sel}) in tuple / dict form differs from data() of all fields"
     return {
         "cap": int(store.capacity),
         "len": len(store),
@@ -322,20 +369,24 @@ def run_case(case):
                 ws = [tuple(r) for r in op["rows"]]
                 idx = np.array([w[0] for w in ws], dtype=np.int32)
                 iform = op.get("iform", "nd32")
-                idx_arg = {"nd32": idx, "nd64": idx.astype(np.int64), "list": [int(i) for i in idx],
+                idx_arg = {"nd32": idx.copy(), "nd64": idx.astype(np.int64), "list": [int(i) for i in idx],
                            "tuple": tuple(int(i) for i in idx)}[iform]
                 rows = make_rows(fields, [w[1] for w in ws])
                 err = None
                 try:
-                    store.add(idx_arg, rows, {}, [XF[x] for x in op["xfs"]])
+                    chain = [XF[x] for x in op["xfs"]]
+                    if chain and op.get("oform"):
+                        chain[-1] = with_oform(chain[-1], op["oform"])
+                    store.add(idx_arg, rows, {}, chain)
                 except IndexError:
                     err = "err index"
                 except ValueError:
                     err = "err value"
-                m = drv.ask("add " + (",".join(op["xfs"]) or "-") + " " + " ".join(f"{i}:{t}" for i, t in ws))
+                mxfs = [XF_MODEL.get(x, x) for x in op["xfs"]]
+                m = drv.ask("add " + (",".join(mxfs) or "-") + " " + " ".join(f"{i}:{t}" for i, t in ws))
                 version[0] += 1
                 # oracle
-                final = ref_chain(ref, op["xfs"], ws)
+                final = ref_chain(ref, mxfs, ws)
                 if any(i >= ref_cap for i, _ in final):
                     if err is None:
                         return Failure("oracle", f"{where}: out-of-range index accepted")
